@@ -439,6 +439,10 @@ def rule_xport(m):
                       'the base-class insertion instead of %s::%s, so repeated pairs / special values are not handled as when ' \
                       'adding the edges one at a time (and derived totals are not maintained by the insertion)' % (
                           delegated['base'].replace('BaseGraph::', ''), short(cls), adder)
+            elif any(('bool', True) in [strip_cast(tt.t(x)) for x in a_.get('args', [])[2:]] for a_ in adds):
+                # whatever the shape of the loop: a forced insertion stores a pair once per mention in the sequence
+                why = 'the constructor inserts with force=true: a pair that the sequence mentions twice is stored twice unless every ' \
+                      'repetition is removed first - the result differs from adding the edges one at a time'
             elif len(loops) != 1 or len(adds) != 1 or (len(resz) != 1 and not (
                     len(resz) == 0 and len(loops) == 1 and len(adds) == 1 and _pair_growth_call(m, f, tt, loops[0], adds[0]) is not None)):
                 why = 'expected one loop over the container, one resize and one insertion through %s' % adder
@@ -853,8 +857,8 @@ def rule_idx(m):
                     for dep in f.region(n['i']):
                         a = f.branch_atom(dep[0])
                         for (at, pol) in implied(tt.t(a), dep[1] == 0) if a is not None else []:
-                            if at[0] == 'bin' and at[1] == '!=' and pol and at[2] == t:
-                                e = at[3]
+                            if at[0] == 'bin' and ((at[1] == '!=' and pol) or (at[1] == '==' and not pol)) and t in (at[2], at[3]):
+                                e = at[3] if at[2] == t else at[2]
                                 if e[0] == 'field' and e[1].endswith('::endVertex'):
                                     okg = True
                                 if e[0] == 'var':
@@ -969,6 +973,20 @@ def rule_idx(m):
                     w = whiles[0]
                     f0, f = f, lf
                     cj = [c for c in _conjuncts(tt.t(w['cond'], resolve_refs=False))]
+                    # `while (A) { if (!B) break; S; }` is `while (A && B) S;`: a leading exit test of the body is a conjunct
+                    wb = f.nodes[w['body']] if w.get('body', -1) >= 0 else None
+                    first = None
+                    if wb is not None and wb['k'] == 'CompoundStmt':
+                        kids = [c for c in wb['c'] if c >= 0]
+                        first = f.nodes[kids[0]] if kids else None
+                    if first is not None and first['k'] == 'IfStmt' and first.get('else', -1) < 0 and first.get('then', -1) >= 0:
+                        th = f.nodes[first['then']]
+                        only_break = th['k'] == 'BreakStmt' or (th['k'] == 'CompoundStmt' and
+                                                              [f.nodes[c]['k'] for c in th['c'] if c >= 0] == ['BreakStmt'])
+                        if only_break:
+                            ct = tt.t(first['cond'], resolve_refs=False)
+                            if ct[0] == 'bin' and ct[1] in ('==', '!='):
+                                cj.append(('bin', '!=' if ct[1] == '==' else '==', ct[2], ct[3]))
                     it = cur = None
                     endv_ok = False
                     for c in cj:
